@@ -1,4 +1,4 @@
 SPECIFICATION GSpec
-CONSTANTS Conns = {c1, c2, c3}  MaxReq = 2  NoChk2 = FALSE  DecBeforeClose = FALSE  Vanishers = {c3}
+CONSTANTS Conns = {c1, c2, c3}  MaxReq = 2  NoChk2 = FALSE  DecBeforeClose = FALSE  NoChk3 = FALSE  Vanishers = {c3}
 CONSTRAINT Emit
 CHECK_DEADLOCK FALSE
